@@ -12,7 +12,7 @@ Definition msg_fields (m : msg) : list json :=
   | CallError i c d x => [i; c; d; match x with Some v => v | None => JNull end]
   end.
 
-Definition msg_wf (m : msg) : Prop := Forall wf (msg_fields m).
+Definition msg_wf (m : msg) : Prop := Forall (wf FFloat) (msg_fields m).
 Definition msg_depth_ok (limit : nat) (m : msg) : Prop := Forall (fun x => S (depth x) <= limit) (msg_fields m).
 
 Lemma int_ok_digit z : (Z.abs z < 10)%Z -> int_ok z.
@@ -26,10 +26,10 @@ Proof.
   rewrite D. cbn [List.length]. apply Nat.leb_le. vm_compute. reflexivity.
 Qed.
 
-Lemma wf_two : wf (JNum (NInt 2)) /\ wf (JNum (NInt 3)) /\ wf (JNum (NInt 4)).
+Lemma wf_two : wf FFloat (JNum (NInt 2)) /\ wf FFloat (JNum (NInt 3)) /\ wf FFloat (JNum (NInt 4)).
 Proof. repeat split; apply int_ok_digit; reflexivity. Qed.
 
-Lemma pack_v_wf m : msg_wf m -> wf (pack_v m).
+Lemma pack_v_wf m : msg_wf m -> wf FFloat (pack_v m).
 Proof.
   destruct wf_two as [W2 [W3 W4]].
   unfold msg_wf. intros F. destruct m as [i a p | i p a | i c d x]; cbn [pack_v msg_fields] in *; apply wf_arr;
@@ -83,7 +83,8 @@ Proof.
       constructor; [|constructor; [|constructor]].
       * split; [apply (WfStr_of [118]%N); repeat constructor|].
         apply wf_arr. constructor; [|constructor; [exact I|constructor; [exact I|constructor; [|constructor]]]].
-        { split; [reflexivity|]. destruct float_ok_examples as [H _]. exact H. }
+        { split; [reflexivity|]. destruct float_ok_examples as [H _]. unfold lit_ok. unfold float_ok in H.
+          destruct (214 =? 0)%Z; [exact H|]. destruct H as [H1 H2]. split; [exact H1|intros _; exact H2]. }
         { apply int_ok_digit. reflexivity. }
       * split; [apply (WfStr_of [115]%N); repeat constructor|].
         apply (WfStr_of [97; 233; 128512; 34; 10]%N); [repeat constructor|cbn; intuition discriminate].
